@@ -399,6 +399,8 @@ struct Shared {                       // fixed before the threads start
     int iters = 4;
     unsigned mask = 0x3F;
     std::vector<std::string> rangeKeys;   // every keyword of RangeTokenMap (read-only once the threads run)
+    std::vector<int> keyFlags;            // bit0: complement token exists after Initialize, bit1: the positive token carries
+                                          // a pre-set case-insensitive twin (safe with option i)
 };
 
 static void wrapExceptions(Digest& d, const std::function<void()>& f) {
@@ -952,10 +954,22 @@ static void wRegexAll(int idx, int iter, const Shared& sh, Digest& d, Rng& r) {
         // thread idx starts at a different key, so that a process covers the key list quickly and every thread's very
         // first expressions are about different shared tokens than its neighbours' AND the same as some other thread's
         size_t ki = (iter == 0 ? (size_t)(idx / 2) * 7 + it : r.below((unsigned)(nk + 10))) % (nk + 10);
+        // bit12 clear (default): stay clear of the two lazily built kinds of shared state that the audit lists and that are
+        // known finding F17-4 -- option i only on tokens whose case-insensitive twin was pre-set by Initialize (the
+        // Unicode category tokens), \\P{} only where the complement token exists.  bit12 set: no such restraint.
+        const bool unrestrained = (sh.mask & 0x1000u) != 0;
         std::string esc;
-        if (ki < nk) esc = std::string(r.coin() ? "\\p{" : "\\P{") + sh.rangeKeys[ki] + "}";
+        bool safeI = false;
+        if (ki < nk) {
+            bool neg = r.coin();
+            if (neg && !unrestrained && !(sh.keyFlags[ki] & 1)) neg = false;
+            esc = std::string(neg ? "\\P{" : "\\p{") + sh.rangeKeys[ki] + "}";
+            safeI = !neg && (sh.keyFlags[ki] & 2);
+        }
         else esc = simple[ki - nk];
-        switch (r.below(5)) {
+        unsigned shape = r.below(5);
+        if (safeI && shape == 3) shape = 1;
+        switch (shape) {
         case 0: pat = esc; break;
         case 1: pat = esc + "+"; break;
         case 2: pat = "[" + esc + "-[a-c]]*x?"; break;
@@ -964,6 +978,7 @@ static void wRegexAll(int idx, int iter, const Shared& sh, Digest& d, Rng& r) {
         }
         static const char* optss[] = {"", "i", "X", "iX", "i", ""};
         const char* opts = optss[r.below(6)];
+        if (!unrestrained && !safeI && opts[0] == 'i') opts = opts[1] ? "X" : "";
         d.add(pat + "/" + opts);
         wrapExceptions(d, [&]() {
             RegularExpression re(X(pat).c_str(), X(opts).c_str());
@@ -1055,7 +1070,10 @@ int main(int argc, char** argv) {
     }
 
     if (sh.mask & 0x800u) {
-        for (const TokInfo& t : auditTokens()) if (t.compl_ == 0) sh.rangeKeys.push_back(t.key);
+        for (const TokInfo& t : auditTokens()) {
+            if (t.compl_ == 0) { sh.rangeKeys.push_back(t.key); sh.keyFlags.push_back(t.casei ? 2 : 0); }
+            else if (t.present) sh.keyFlags.back() |= 1;
+        }
     }
     auto poolState = [&]() {          // what a locked pool holds: must be the same before and after the workloads
         std::vector<std::string> keys;
